@@ -110,6 +110,33 @@ def agrees(step, ref):
     return ok_res, ok_tree
 
 
+def _fixed_mode(m):
+    """A valid binary mode of the same read/write kind as the invalid mode string m."""
+    if not any(c in m for c in "wax+"):
+        return "r"
+    return "a" if "a" in m else "x" if "x" in m else "w" if "w" in m else "r+"
+
+
+def agrees2(step, ref):
+    """agrees(), plus the two-defects rule: a call whose mode is invalid AND whose path has another
+    failure cause may report either (the contract fixes no precedence between the two causes; e.g.
+    MultiFS looks the path up before it hands the mode to a member).  The second cause is taken from the
+    reference with a valid mode of the same read/write kind; the tree must be unchanged."""
+    okr, okt = agrees(step, ref)
+    if okr or not okt or step.op[0] not in ("openread", "openwrite"):
+        return okr, okt
+    if not ref.startswith("crash:ValueError#") or not step.outcome.startswith("err:"):
+        return okr, okt
+    op2 = list(step.op)
+    op2[2] = _fixed_mode(op2[2])
+    line = "fs refstep " + " ".join(tree_tokens(step.pre) + fsops.encode(tuple(op2)))
+    r2 = common.run_model([line])[0]
+    rres = r2.split("#", 1)[0]
+    if rres.startswith("fail:") and step.outcome[4:] in rres[5:].split(","):
+        return True, okt
+    return okr, okt
+
+
 def hist_line(model, h):
     toks = []
     for o in h:
@@ -215,7 +242,7 @@ def run_c01(report):
         for s, r in zip(steps, refs):
             total += 1
             dist[(s.op[0], s.outcome.split(":")[0] if s.outcome.startswith("ok") else s.outcome)] += 1
-            okr, okt = agrees(s, r)
+            okr, okt = agrees2(s, r)
             if s.outcome.startswith("ok:") and s.pre != s.post:
                 nontrivial.add((s.op[0], fsops.canon_tree(s.post)))
             if not (okr and okt):
@@ -305,7 +332,7 @@ def replay(report, path):
     refs = ref_steps(steps)
     bad = 0
     for s, r in zip(steps, refs):
-        okr, okt = agrees(s, r)
+        okr, okt = agrees2(s, r)
         print("replay", s.backend, s.op, "->", s.outcome, "| reference:", r.split("#")[0], "| agree:", okr, okt)
         bad += (not (okr and okt))
     return 1 if bad else 0
